@@ -268,10 +268,13 @@ class Backend(ABC):
             List of converted queries
         """
         try:
-            # Initialize processing pipeline if not already done
+            # Initialize processing pipeline if not already done, or if it was assembled for another
+            # output format (it ends with the pipeline of the output format)
             if (
                 not hasattr(self, "last_processing_pipeline")
                 or self.last_processing_pipeline is None
+                or self.last_processing_pipeline.vars.get("output_format")
+                != (output_format or self.default_format)
             ):
                 self.init_processing_pipeline(output_format)
 
